@@ -7,6 +7,7 @@
 #include <nitro/lang/string.hpp>
 
 #include <cxxabi.h>
+#include <iomanip>
 #include <iterator>
 #include <list>
 
@@ -275,6 +276,27 @@ int main()
                     ty = "nitro";
                 }
                 out("X " + ty + " " + hex(got));
+            }
+            else if (c == "RAISEM")
+            {
+                // RAISEM <s:text> <i:number> <hex|bool|prec>: an argument list with a stream manipulator
+                std::string got;
+                std::string text = unhex(w[1].substr(2));
+                int num = std::atoi(w[2].substr(2).c_str());
+                try
+                {
+                    if (w[3] == "hex")
+                        nitro::raise(text, std::hex, num);
+                    else if (w[3] == "bool")
+                        nitro::raise(text, std::boolalpha, num != 0);
+                    else
+                        nitro::raise(text, std::setprecision(3), num / 7.0);
+                }
+                catch (nitro::except::exception& e)
+                {
+                    got = e.what();
+                }
+                out("X nitro " + hex(got));
             }
             else if (c == "RAISEF")
             {
